@@ -61,7 +61,7 @@ type OwnSink struct {
 type Own struct {
 	P          *Program
 	valueI     *types.Interface
-	storage    map[string]bool          // struct type names (rel.X) that are value-storage structs
+	storage    map[string]bool // struct type names (rel.X) that are value-storage structs
 	sums       map[*ssa.Function]*ownSummary
 	fieldState map[*types.Var]oState
 	Audited    map[string]string // function name -> reason: sinks inside are exempt (one named symbol each)
@@ -337,10 +337,124 @@ func (fr *ownFrame) sink(ins ssa.Instruction, kind string, base ssa.Value) {
 			}
 		}
 	}
+	// a closure that can run more than once extends storage it captured without writing the result back to the
+	// captured cell: every invocation appends to the same backing array, so the results of two invocations (two
+	// partial applications of one curried function, …) overwrite each other when there is spare capacity
+	why := fr.Why(base)
+	if kind == "append" && !bad && !protected && fr.fn.Parent() != nil && !singleInvocation(fr.fn) {
+		if addr, ok := capturedCell(base); ok && st != oCapped {
+			back := false
+			if v, isV := ins.(ssa.Value); isV && v.Referrers() != nil {
+				var follow func(x ssa.Value, d int)
+				follow = func(x ssa.Value, d int) {
+					if d > 3 || x.Referrers() == nil {
+						return
+					}
+					for _, ref := range *x.Referrers() {
+						switch u := ref.(type) {
+						case *ssa.Store:
+							if u.Val == x && sameAddr(u.Addr, addr, 0) {
+								back = true
+							}
+						case *ssa.Phi:
+							follow(u, d+1)
+						}
+					}
+				}
+				follow(v, 0)
+			}
+			if !back {
+				bad = true
+				st = oShared
+				why = "captured by a closure that can be invoked repeatedly, and the extended slice is not written back to the captured variable: all invocations append to one backing array"
+			}
+		}
+	}
 	if !fr.report {
 		return
 	}
-	fr.record(ins, kind, baseDesc(base), st, fr.Why(base), bad)
+	fr.record(ins, kind, baseDesc(base), st, why, bad)
+}
+
+// capturedCell: v is a load from a captured variable, or from a field of a captured struct; returns the address loaded.
+func capturedCell(v ssa.Value) (ssa.Value, bool) {
+	if ph, isPhi := v.(*ssa.Phi); isPhi {
+		for _, e := range ph.Edges {
+			if _, isPhi2 := e.(*ssa.Phi); isPhi2 {
+				continue
+			}
+			if a, ok := capturedCell(e); ok {
+				return a, true
+			}
+		}
+		return nil, false
+	}
+	ld, ok := v.(*ssa.UnOp)
+	if !ok || ld.Op != token.MUL {
+		return nil, false
+	}
+	a := ld.X
+	for i := 0; i < 4; i++ {
+		switch x := a.(type) {
+		case *ssa.FreeVar:
+			return ld.X, true
+		case *ssa.FieldAddr:
+			a = x.X
+		case *ssa.UnOp:
+			if x.Op != token.MUL {
+				return nil, false
+			}
+			a = x.X
+		default:
+			return nil, false
+		}
+	}
+	return nil, false
+}
+
+// singleInvocation: the function literal is only ever called where it is written (immediately invoked, deferred,
+// started with go) or handed to sync.Once.Do.
+func singleInvocation(fn *ssa.Function) bool {
+	par := fn.Parent()
+	if par == nil {
+		return true
+	}
+	single := true
+	found := false
+	ForEachInstr(par, func(ins ssa.Instruction) {
+		mc, ok := ins.(*ssa.MakeClosure)
+		if !ok || mc.Fn != ssa.Value(fn) {
+			return
+		}
+		found = true
+		if mc.Referrers() == nil {
+			return
+		}
+		for _, ref := range *mc.Referrers() {
+			switch u := ref.(type) {
+			case *ssa.Call:
+				if u.Call.Value == ssa.Value(mc) {
+					continue
+				}
+				if g := u.Call.StaticCallee(); g != nil && g.String() == "(*sync.Once).Do" {
+					continue
+				}
+				single = false
+			case *ssa.Defer:
+				if u.Call.Value != ssa.Value(mc) {
+					single = false
+				}
+			case *ssa.Go:
+				if u.Call.Value != ssa.Value(mc) {
+					single = false
+				}
+			case *ssa.DebugRef:
+			default:
+				single = false
+			}
+		}
+	})
+	return found && single
 }
 
 func (fr *ownFrame) record(ins ssa.Instruction, kind, desc string, st oState, why string, bad bool) {
